@@ -518,6 +518,21 @@ public:
 		, mSize(arraySize)
 	{ }
 
+	~CMsgPackReadBinaryScope()
+	{
+		// Skip bytes that was not read (the parent scope continues behind this binary array)
+		try
+		{
+			for (; mIndex < mSize; ++mIndex) {
+				mMsgPackReader->ReadBinary();
+			}
+		}
+		catch (...)
+		{
+			// A destructor must not throw: the next read (if any) reports the truncated data
+		}
+	}
+
 	/// <summary>
 	/// Gets the current path in MsgPack.
 	/// </summary>
@@ -581,6 +596,21 @@ public:
 		, mMsgPackReader(msgPackReader)
 		, mSize(arraySize)
 	{ }
+
+	~CMsgPackReadArrayScope()
+	{
+		// Skip elements that was not read (the parent scope continues behind this array)
+		try
+		{
+			for (; mIndex < mSize; ++mIndex) {
+				mMsgPackReader->SkipValue();
+			}
+		}
+		catch (...)
+		{
+			// A destructor must not throw: the next read (if any) reports the truncated or corrupted data
+		}
+	}
 
 	/// <summary>
 	/// Gets the current path in MsgPack.
